@@ -457,7 +457,7 @@ func ruleSatArith(c *Ctx) {
 			break
 		}
 	}
-	c.atLeast("floatToInt call sites", sources, 6)
+	c.atLeast("floatToInt call sites", sources, 4)
 	// obligations: every + - * with a possibly saturated operand
 	nOps := 0
 	var keys []string
